@@ -456,6 +456,11 @@ def static_rules(rep, index, set_order_witness=None):
     # resolution of types is reachable from the emission phase only
     reach = _reachable(index, GEN_PKG + ".generate.code_generator", "ProtocolCodeGenerator", "_index_protocol_files")
     resolves = sorted(x for x in reach if x.endswith(("get_type", "_create_type", "_create_custom_type", "_create_struct_type", "_create_enum_type")))
+    if resolves and not any((not o.ok) and o.rule.startswith(("C18.P1 ", "C18.P7 ")) for o in rep.obs):
+        # reachability is a sufficient condition only: resolving while indexing matters when a type can be asked for before
+        # the file declaring it was walked, and then some enumeration order of the reference tree fails or differs
+        raise AnalysisError("C18.D4: type resolution is reachable while indexing (%s) but every enumeration order of the reference "
+                            "tree succeeds with identical output -- undecided" % resolves[:3])
     rep.ob("C18.D4 indexing-never-resolves-types", "call graph from _index_protocol_files", not resolves,
            "type resolution reachable while indexing (depends on file enumeration order): %s" % resolves if resolves else
            "%d functions reachable, none resolves a type" % len(reach), loc=index.loc(m, fn))
